@@ -52,7 +52,7 @@ const queueCapacity = 100
 var muteBound = 5 * time.Second
 
 // slow reader: longer than a sender would reasonably wait, shorter than the write loop's 5 s write deadline
-const slowPause = 2500 * time.Millisecond
+const slowPause = 1500 * time.Millisecond
 
 type source struct {
 	idx     int
@@ -399,6 +399,7 @@ type Script struct {
 }
 
 type Result struct {
+	Attempts int // how often the conversation was run (timing-dependent cases are repeated when inconclusive)
 	Lenient int // labels performed while the connection was served normally (-1: all)
 	Labels []Label
 	Obs    []sexp.Node // one per label
